@@ -89,6 +89,30 @@ def char_level(run, es5):
                                           if want is None else 'read as a different tree'))
                 run.failed('rt.grammar.chars', 'E4/bounded', '%s U+%04X' % (where, ord(c)), dict(source=text, problem=why),
                            observed=why, required='white space and line terminators separate tokens and nothing else does', replayed=True)
+    # 7.8.5: a regular expression literal may start with any character but * \\ / [ (and line terminators); \\x and [..] are
+    # the backslash sequence and class forms
+    m = 0
+    for cp in range(0x20, 0x7f):
+        c = chr(cp)
+        lit = '/[' + 'a]/' if c == '[' else '/\\a/' if c == '\\' else None if c in '*/' else '/' + c + 'a/'
+        if lit is None:
+            continue
+        for ctx, tail in (('x = ', ';'), ('s.split(', ');'), ('if (x) ', '.test(y);'), ('{ a; } ', '.test(y);'), ('x = a + ', ';'),
+                          ('return_ = typeof ', ';')):
+            m += 1
+            text = ctx + lit + tail
+            try:
+                tree = es5.parse(text)
+                found = [n.value for n in walkers.Walker().filter(tree, lambda n: type(n).__name__ == 'Regex')]
+                why = None if found == [lit] else 'read as %r instead of one regular expression literal %s' % (str(tree), lit)
+            except Exception as e:
+                if type(e).__name__ not in ('ECMASyntaxError', 'ECMARegexSyntaxError'):
+                    raise
+                why = 'rejected (%s)' % str(e)[:80]
+            if why:
+                run.failed('rt.grammar.chars', 'E4/bounded', 'regex %s in %r' % (lit, ctx), dict(source=text, problem=why), observed='%r: %s' % (text, why),
+                           required='RegularExpressionFirstChar admits every character but * \\ / [ and line terminators', replayed=True)
+    n += m
     run.bounded_check('rt.grammar.chars', 'every ES5 WhiteSpace / LineTerminator code point and %d other control / format code points, '
                       'leading, between two statements and trailing' % len(bad), n)
 
